@@ -4,7 +4,7 @@ Every run parses the functions found in the modules imported from $VERIF_REPO; n
 copied.  Paths are explored by re-execution with a decision prefix; implicit CPython exceptions
 are ordinary paths.  See DESIGN.md section 3.
 """
-import ast, inspect, textwrap, types, sys, os, builtins, enum
+import ast, struct, inspect, textwrap, types, sys, os, builtins, enum
 import z3
 
 from .values import *
@@ -684,6 +684,14 @@ class Engine:
                     if idx not in obj:
                         self.raise_(KeyError, idx)
                     del obj[idx]
+                elif isinstance(obj, SSeq) and isinstance(idx, SliceV) and obj.kind in ("bytearray", "list", "array_b", "array_B") \
+                        and (idx.step is None or idx.step == 1) and isinstance(t.value, (ast.Name, ast.Attribute)):
+                    # del seq[a:b] on a mutable sequence: the variable / attribute is rebound to head + tail (aliases are not tracked)
+                    head = self.models.slice_seq(self, obj, SliceV(None, idx.lo if idx.lo is not None else 0, None))
+                    tail = self.models.slice_seq(self, obj, SliceV(idx.hi, None, None)) if idx.hi is not None else None
+                    new = head if tail is None else self.models.concat(head, tail, obj.kind)
+                    self.used_models.add("del sequence[a:b] (rebinding; aliases not tracked)")
+                    self.assign(t.value, new, fr)
                 else:
                     raise Unsupported("del subscript")
             else:
@@ -882,6 +890,10 @@ class Engine:
         if isinstance(obj, types.ModuleType):
             return getattr(obj, name)
         if isinstance(obj, (int, float)):
+            return BuiltinMethod(obj, name)
+        if isinstance(obj, struct.Struct):
+            if name in ("size", "format"):
+                return getattr(obj, name)
             return BuiltinMethod(obj, name)
         if isinstance(obj, SInt):
             return BuiltinMethod(obj, name)
